@@ -234,4 +234,12 @@ func init() {
 		variant{Name: "benign-deferred-broadcast", File: "concurrent/promise.go", Find: "func (p *Promise) fail(value interface{}, err error) (f bool) {\n\tr, _ := p.messageState()\n", Replace: "func (p *Promise) fail(value interface{}, err error) (f bool) {\n\tdefer p.set.Broadcast()\n\tr, _ := p.messageState()\n", More: []edit{{"concurrent/promise.go", "\tp.message <- r\n\tp.set.Broadcast()\n\n\treturn\n}\n\n// Recover a failed promise", "\tp.message <- r\n\n\treturn\n}\n\n// Recover a failed promise"}}},
 		variant{Name: "benign-map-closes-queue-in-feeder", File: "concurrent/map.go", Find: "\tgo func() {\n\t\tfor s := 0; s*chunkSize < set.Len(); s++ {", Replace: "\tgo func() {\n\t\tdefer close(queue)\n\t\tfor s := 0; s*chunkSize < set.Len(); s++ {"},
 	)
+	selftests["C08"] = []variant{
+		{Name: "nw-up-move-reads-left-cell", File: "align/nw_letters.go", Find: "\t\t\tupScore := table[p-c] + la[rVal*let]\n", Replace: "\t\t\tupScore := table[p-1] + la[rVal*let]\n", Rule: "dpstep", Key: "align.(NW).alignLetters/transition"},
+		{Name: "sw-diag-scores-gap", File: "align/sw_qletters.go", Find: "\t\t\tdiagScore := table[p-c-1] + la[rVal*let+qVal]\n", Replace: "\t\t\tdiagScore := table[p-c-1] + la[rVal*let]\n", Rule: "dpstep", Key: "align.(SW).alignQLetters/transition"},
+		{Name: "swaffine-traceback-wrong-predecessor", File: "align/sw_affine_letters.go", Find: "\t\tcase table[p-c][up] + la[rVal*let]:\n", Replace: "\t\tcase table[p-c-1][up] + la[rVal*let]:\n", Rule: "dpstep", Key: "align.(SWAffine).alignLetters/transition"},
+		{Name: "nwaffine-left-layer-opens-with-reference-letter", File: "align/nw_affine_letters.go", Find: "\t\t\t\tadd(table[p-1][diag], a.GapOpen+la[qVal]),\n", Replace: "\t\t\t\tadd(table[p-1][diag], a.GapOpen+la[rVal*let]),\n", Rule: "dpstep", Key: "align.(NWAffine).alignLetters/transition"},
+		{Name: "fitted-stride-dropped", File: "align/fitted_letters.go", Find: "\t\t\tupScore := table[p-c] + la[rVal*let]\n", Replace: "\t\t\tupScore := table[p-c] + la[rVal]\n", Rule: "stride", Key: "align.(Fitted).alignLetters/matrix-subscript reference"},
+		{Name: "benign-row-offset-in-local", File: "align/nw_letters.go", Find: "\t\t\tdiagScore := table[p-c-1] + la[rVal*let+qVal]\n\t\t\tupScore := table[p-c] + la[rVal*let]\n", Replace: "\t\t\trow := rVal * let\n\t\t\tdiagScore := table[p-c-1] + la[row+qVal]\n\t\t\tupScore := la[row] + table[p-c]\n", More: []edit{{"align/nw_qletters.go", "\t\t\tdiagScore := table[p-c-1] + la[rVal*let+qVal]\n\t\t\tupScore := table[p-c] + la[rVal*let]\n", "\t\t\trow := rVal * let\n\t\t\tdiagScore := table[p-c-1] + la[row+qVal]\n\t\t\tupScore := la[row] + table[p-c]\n"}}},
+	}
 }
